@@ -192,3 +192,39 @@ Theorem C02_shared_container_refuted :
   describe_ok (fst (sibling_delete_old "domainaxis1" s)) = false /\
   root (fst (wstep (mkW s []) (OnSibling []))) = s.
 Proof. vm_compute. repeat split; reflexivity. Qed.
+
+(* ------------------------------------------------------------------ *)
+(* insert_dimension(constructs=True) as it stood: the new axis was inserted
+   into dimension coordinates as well, leaving one with 2-d data - a state in
+   which it, and the field that holds it, cannot be copied (copy, f[...],
+   every inplace=False method raise ValueError).  The code as it is leaves the
+   dimension coordinate and its data axes alone. *)
+Definition insert_entry_old (axis : key) (position : Z) (data_axes0 : list key)
+           (cax : list (key * list key)) (e : centry)
+  : option (centry * option (key * list key)) :=
+  match e with
+  | (t, k, PArr (Some sh) true bnd) =>
+      if is_array t then
+        match assoc k cax with
+        | None => None
+        | Some ca =>
+            if memb axis ca then Some (e, None)
+            else
+              let cpos := fold_left (fun c a => if memb a ca then c else c - 1) data_axes0 position in
+              let cpos := if cpos <? 0 then 0 else cpos in
+              if Z.of_nat (length sh) <? cpos then None else
+              Some ((t, k, PArr (Some (insert_at cpos 1 sh)) true bnd), Some (k, insert_at cpos axis ca))
+        end
+      else Some (e, None)
+  | _ => Some (e, None)
+  end.
+
+Theorem C02_insert_dimension_2d_dimcoord_refuted :
+  let e := (DimCoord, "dimensioncoordinate0", PArr (Some [5]) true None) in
+  let cax := [("dimensioncoordinate0", ["domainaxis0"])] in
+  insert_entry_old "domainaxis1" 0 ["domainaxis0"] cax e
+    = Some ((DimCoord, "dimensioncoordinate0", PArr (Some [1; 5]) true None),
+            Some ("dimensioncoordinate0", ["domainaxis1"; "domainaxis0"])) /\
+  copyable_entry (DimCoord, "dimensioncoordinate0", PArr (Some [1; 5]) true None) = false /\
+  insert_entry "domainaxis1" 0 ["domainaxis0"] cax e = Some (e, None).
+Proof. vm_compute. repeat split; reflexivity. Qed.
